@@ -365,6 +365,32 @@ def _place(node, c):
             yield from embed(item, c)
 
 
+def _placep(node, c):
+    # Ppatlace: one value from each stream in turn; a stream that has ended is
+    # skipped (it stays ended); the pattern ends after `repeats` passes or
+    # with the first pass in which no stream gave a value.  Items that are
+    # not patterns are constant streams.
+    _, items, repeats, offset = node
+    size = len(items)
+    streams = [stream(items[(i + offset) % size], c) for i in range(size)]
+    alive = [True] * size
+    for _ in counter(repeats):
+        c.tick()
+        got = 0
+        for i in range(size):
+            if not alive[i]:
+                continue
+            try:
+                v = next(streams[i])
+            except StopIteration:
+                alive[i] = False
+                continue
+            got += 1
+            yield v
+        if got == 0:
+            return
+
+
 def _ptuple(node, c):
     _, items, repeats = node
     for _ in counter(repeats):
@@ -549,7 +575,7 @@ SEM = {
     'Pseq': _pseq, 'Pser': _pser, 'Pn': _pn, 'Plen': _plen, 'Pdrop': _pdrop,
     'Pstutter': _pstutter, 'Pclump': _pclump, 'Pflatten': _pflatten,
     'Pdiff': _pdiff, 'Pconst': _pconst, 'Pswitch': _pswitch,
-    'Pswitch1': _pswitch1, 'Place': _place, 'Ptuple': _ptuple,
+    'Pswitch1': _pswitch1, 'Place': _place, 'Placep': _placep, 'Ptuple': _ptuple,
     'Pslide': _pslide, 'Pseries': _pseries, 'Pgeom': _pgeom,
     'Pcollect': _pcollect, 'Pselect': _pselect, 'Preject': _preject,
     'Pif': _pif, 'Pwrap': _pwrap, 'Pseed': _pseed,
